@@ -93,7 +93,7 @@ func c06Gen(r *RNG, id string, prop string) *Case {
 		c.Tag("wide-near-tie")
 	}
 	base := randSeq(r, w, symACGT, false)
-	skewed := prop == "C07" && c.Get("jit") == "" && r.Chance(1, 60)
+	skewed := prop == "C07" && c.Get("jit") == "" && atScale(r, 60)
 	if skewed {
 		// scale: more than 65 535 columns, more than 65 535 of them one base in every target (a count kept in 16 bits
 		// wraps), the other three bases present: tn93's frequencies come from these counts
